@@ -151,6 +151,9 @@ pub type KeySet = HashSet<u128, BuildHasherDefault<IdHasher>>;
 thread_local! {
     static LAST_PANIC: RefCell<String> = RefCell::new(String::new());
 }
+/// (message, source file) of the most recent panic on any thread - for the
+/// backstop in `main` that tells a panic in the library from one in the harness
+pub static LAST_PANIC_ANY: Mutex<(String, String)> = Mutex::new((String::new(), String::new()));
 
 pub fn install_panic_hook() {
     static ONCE: OnceLock<()> = OnceLock::new();
@@ -167,6 +170,9 @@ pub fn install_panic_hook() {
                 .location()
                 .map(|l| format!("{}:{}", l.file(), l.line()))
                 .unwrap_or_default();
+            if let Ok(mut g) = LAST_PANIC_ANY.lock() {
+                *g = (format!("{} at {}", msg, loc), info.location().map(|l| l.file().to_string()).unwrap_or_default());
+            }
             LAST_PANIC.with(|p| *p.borrow_mut() = format!("{} at {}", msg, loc));
         }));
     });
